@@ -159,6 +159,9 @@ func (e *Engine) verifyFunction(fn *ssa.Function, fc *FuncContract, ifaceNames [
 		for _, r := range fc.Requires {
 			vc.assume(st, vc.evalBool(env, r))
 		}
+		if fc.When != nil {
+			vc.assume(st, vc.evalBool(env, fc.When)) // this case of a contract with alternatives
+		}
 		for _, r := range fc.Assumes {
 			vc.assume(st, vc.evalBool(env, r))
 			vc.used["assumed invariant in "+fc.Key+": "+r.Text] = true
